@@ -164,6 +164,20 @@ def unify_ty(a, b):
     return None
 
 
+def _seq_to_opt(term, lty):
+    """Seq T -> Seq Opt[T] for terms built from ite / unit / concat / empty (merged concrete lists)"""
+    k = term.decl().kind()
+    if k == z3.Z3_OP_ITE:
+        return z3.If(term.arg(0), _seq_to_opt(term.arg(1), lty), _seq_to_opt(term.arg(2), lty))
+    if k == z3.Z3_OP_SEQ_UNIT:
+        return z3.Unit(opt_some(lty[1], term.arg(0)))
+    if k == z3.Z3_OP_SEQ_CONCAT:
+        return z3.Concat(*[_seq_to_opt(term.arg(i), lty) for i in range(term.num_args())])
+    if k == z3.Z3_OP_SEQ_EMPTY:
+        return z3.Empty(sort_of(lty))
+    raise Unsupported('cannot convert a symbolic list to a list of optionals: %s' % term.sexpr()[:80])
+
+
 def lift(v, st, ty=None):
     """z3 term of a first-order value."""
     if isinstance(v, Sym):
@@ -199,6 +213,10 @@ def lift(v, st, ty=None):
             if t is None:
                 raise Unsupported('lift of list without element type %r' % (p,))
             if p.sym is not None:
+                if p.elty is not None and t[1] != p.elty:
+                    if is_opt(t[1]) and t[1][1] == p.elty:
+                        return _seq_to_opt(p.sym, t)
+                    raise Unsupported('lift: list of %r is not a list of %r' % (p.elty, t[1]))
                 return p.sym
             if len(p.items) == 0:
                 return z3.Empty(sort_of(t))
